@@ -222,3 +222,31 @@ pub open spec fn handle_post(q: ReqView, s0: store::MemcStore, s1: store::MemcSt
 pub open spec fn is_resp(r: BinaryResponse) -> bool { true }
 // the request without its variant tag: what a command's effect may depend on besides its base command (C19)
 pub open spec fn payload(q: ReqView) -> ReqView { ReqView { kind: RK::Noop, ..q } }
+
+// C11, lifted: every response handle_request can produce for request header h is a well-formed, correlated
+// frame: magic 0x81, opcode and opaque echoed, data type 0, a status of the protocol table, and a body length
+// equal to the bytes that follow (payload_bytes: what the encoder writes - unit codec_enc).
+pub open spec fn status_in_table(st: u16) -> bool {
+    st == 0 || st == 1 || st == 2 || st == 3 || st == 4 || st == 5 || st == 6 || st == 0x81 || st == 0x82 || st == 0x83 || st == 0x84 || st == 0x85 || st == 0x86
+}
+pub proof fn lemma_response_wellformed(b: Base, q: ReqView, h: binary::RequestHeader, s0: store::MemcStore, s1: store::MemcStore, full: BinaryResponse) // @ob C11 lemma.response_wellformed
+    requires
+        loud_post(b, q, rh_init(h), s0, s1, full),
+        vals_small(s0.store.memory@), q.key.len() <= 250,
+    ensures
+        resp_header(full).magic == 0x81 && resp_header(full).opcode == h.opcode && resp_header(full).opaque == h.opaque && resp_header(full).data_type == 0,
+        status_in_table(resp_header(full).status),
+        full is Error <==> resp_header(full).status != 0,
+        !(b is Version) ==> payload_bytes(full).len() == resp_header(full).body_length,
+        (b is Get || b is GetKey) && !(full is Error) ==> resp_header(full).extras_length == 4 && resp_header(full).key_length == (if b is GetKey { q.key.len() } else { 0 }),
+        (b is Incr || b is Decr) && !(full is Error) ==> resp_header(full).body_length == 8,
+{
+    if full is Error {
+        lemma_error_text_short(resp_err(full));
+        lemma_error_text_short(CacheError::NotFound); lemma_error_text_short(CacheError::KeyExists);
+        lemma_error_text_short(CacheError::ValueTooLarge); lemma_error_text_short(CacheError::UnkownCommand);
+        lemma_error_text_short(CacheError::ArithOnNonNumeric);
+    }
+    assert(enc32(0).len() == 4);
+    assert(enc64(0).len() == 8);
+}
